@@ -69,6 +69,14 @@ prop("C18", [
     dict(POOL_B, checks=["reopen/", "allocate_address/C13"]),
 ], explanation="setup_db: rows preserved, ends at version 1, newer version refused before any write; allocate_address: exactly one write, after every error return; reopen/upgrade on file-backed SQLite bounded",
     assumptions=["SQLite durability/atomicity of an autocommitted statement (kill-at-any-instant is NOT decided)", "DDL statements preserve rows (assumed; engine B bounded)"])
+prop("C19", [
+    dict(engine="verus", unit="configleaf"),
+    dict(engine="verus", unit="dhcpranges", fns=["apply_subnet_hosts", "default_pool_hosts"]),
+    dict(engine="verus", unit="router", fns=["DnsRouteHandler::handle_query"]),
+    dict(engine="kani", sets=["net_subnet", "config_prefix"]),
+], explanation="leaf parsers total (no unwrap/index/overflow) for all inputs; values the loader can produce are safe for the handlers that consume them (prefix arithmetic, host ranges, empty forward route)",
+    assumptions=["yaml-rust's loader and the big key-dispatch match of load_config_from_string are not under contract (external parser; closure/iterator heavy)",
+                 "str_prefix*/parse_routes/parse_prefix error paths repaired by fix commits but their bodies (split/parse/collect chains) are not under contract"])
 prop("C20", [
     dict(POOL_B, checks=["sql_metrics", "sql_list"]),
 ], level="exploration", explanation="gauge query and lease listing query against the row set, bounded exhaustive on real SQLite")
